@@ -627,6 +627,118 @@ fn reconstruct_family(ctx: &Ctx, report: &mut Report) -> Result<(), String> {
             }
         }
     }
+    // (B4) uncles partly known locally: two real sibling blocks of height 1 are stored by the node
+    // (one on the main chain, one as a side block); the announced block lists 2..3 uncles drawn from
+    // {L1, L2 (local), U1, U2 (unknown)} in every order.  Production flow: the first reconstruction
+    // reports the missing uncle indexes, the peer answers (every sequence of length 0..=2 over
+    // {U1, U2, a foreign uncle}), BlockUnclesVerifier, second reconstruction.
+    {
+        let snap = node.shared.snapshot();
+        let l1 = crate::forge::assemble(&snap, &crate::forge::BlockSpec { miner: 1, ..Default::default() })?;
+        let l2 = crate::forge::assemble(&snap, &crate::forge::BlockSpec { miner: 2, ts_offset: 1, ..Default::default() })?;
+        node.process(&l1).map_err(|e| format!("l1: {e}"))?;
+        node.process(&l2).map_err(|e| format!("l2: {e}"))?;
+        let fake = |n: u8| -> ckb_types::core::UncleBlockView {
+            BlockBuilder::default().number(1u64).parent_hash(cons.genesis_hash()).timestamp(time_for_height(1) + 50 + n as u64).compact_target(cons.genesis_block().compact_target()).nonce(n as u128).build().as_uncle()
+        };
+        // 0 = L1, 1 = L2, 2 = U1, 3 = U2, 4 = foreign
+        let pool_u: Vec<ckb_types::core::UncleBlockView> = vec![l1.as_uncle(), l2.as_uncle(), fake(1), fake(2), fake(3)];
+        let mut lists: Vec<Vec<usize>> = vec![];
+        for a in 0..4usize {
+            for b in 0..4usize {
+                if a == b {
+                    continue;
+                }
+                lists.push(vec![a, b]);
+                for c in 0..4usize {
+                    if c != a && c != b {
+                        lists.push(vec![a, b, c]);
+                    }
+                }
+            }
+        }
+        let mut answers: Vec<Vec<usize>> = vec![vec![]];
+        for x in 2..5usize {
+            answers.push(vec![x]);
+            for y in 2..5usize {
+                answers.push(vec![x, y]);
+            }
+        }
+        let all: HashSet<usize> = (0..4).collect();
+        for list in &lists {
+            let mut b = block.as_advanced_builder().number(2u64);
+            for i in list {
+                b = b.uncle(pool_u[*i].clone());
+            }
+            let ublock: BlockView = b.build();
+            let cb = packed::CompactBlock::build_from_block(&ublock, &all);
+            let active = sync_shared.active_chain();
+            let first = std::panic::catch_unwind(std::panic::AssertUnwindSafe(|| handle.block_on(relayer.reconstruct_block(&active, &cb, vec![], &[], &[]))));
+            use ckb_sync::ReconstructionResult as RR;
+            let label0 = json!({"family": "uncles-mixed", "uncle_list": list});
+            report.evaluations += 1;
+            let want_missing: Vec<usize> = list.iter().enumerate().filter(|(_, u)| **u >= 2).map(|(i, _)| i).collect();
+            let asked: Vec<u32> = match first {
+                Err(_) => {
+                    report.violation("uncles-mixed/panic", format!("reconstruct_block panicked on uncle list {list:?} before any answer"), label0);
+                    continue;
+                }
+                Ok(RR::Missing(txm, um)) => {
+                    if !txm.is_empty() || um != want_missing {
+                        report.violation("uncles-mixed/imprecise-missing", format!("uncle list {list:?} (0, 1 are stored locally): missing report {txm:?}/{um:?}, unknown uncles are at {want_missing:?}"), label0);
+                    }
+                    um.iter().map(|i| *i as u32).collect()
+                }
+                Ok(RR::Block(b)) => {
+                    if !want_missing.is_empty() || b.hash() != ublock.hash() {
+                        report.violation("uncles-mixed/different-block", format!("uncle list {list:?}: a block was returned although uncles {want_missing:?} are unknown (or it is another block)"), label0);
+                    }
+                    continue;
+                }
+                Ok(_) => continue,
+            };
+            for ans in &answers {
+                let supplied: Vec<ckb_types::core::UncleBlockView> = ans.iter().map(|i| pool_u[*i].clone()).collect();
+                let label = json!({"family": "uncles-mixed", "uncle_list": list, "asked_indexes": asked, "answered": ans});
+                report.evaluations += 1;
+                let ok = std::panic::catch_unwind(|| ckb_sync::verif::block_uncles_verify(&cb, &asked, &supplied).is_ok());
+                match ok {
+                    Err(_) => {
+                        report.violation("uncles-mixed/verifier-panic", format!("BlockUnclesVerifier panicked: list {list:?}, asked {asked:?}, answered {ans:?}"), label);
+                        continue;
+                    }
+                    Ok(false) => {
+                        report.count("uncle_answers_refused_by_verifier", 1);
+                        continue;
+                    }
+                    Ok(true) => {}
+                }
+                let active = sync_shared.active_chain();
+                let res = std::panic::catch_unwind(std::panic::AssertUnwindSafe(|| handle.block_on(relayer.reconstruct_block(&active, &cb, vec![], &asked, &supplied))));
+                report.states.insert(fp(&("uncles-mixed", list, ans)));
+                match res {
+                    Err(_) => report.violation("uncles-mixed/panic", format!("reconstruct_block panicked: uncle list {list:?} (0, 1 stored locally), asked for {asked:?}, the peer answered {ans:?} (accepted by BlockUnclesVerifier)"), label),
+                    Ok(RR::Block(b)) => {
+                        report.outcomes.insert(13);
+                        if b.hash() != ublock.hash() || b.data().as_slice() != ublock.data().as_slice() {
+                            report.violation("uncles-mixed/different-block", format!("list {list:?}, asked {asked:?}, answered {ans:?}: reconstruction returned block {} for a compact block announcing {}", b.hash(), ublock.hash()), label);
+                        } else {
+                            report.nontrivial.insert(fp(&("uncles-mixed", list, ans)));
+                        }
+                    }
+                    Ok(RR::Missing(_, _)) => {
+                        report.outcomes.insert(14);
+                    }
+                    Ok(RR::Collided) => {
+                        report.outcomes.insert(15);
+                    }
+                    Ok(RR::Error(_)) => {
+                        report.outcomes.insert(16);
+                    }
+                }
+            }
+        }
+    }
     report.traces += 1;
     // the relayer holds a ChainController: the chain service only stops once every clone is gone
     drop(relayer);
@@ -640,7 +752,7 @@ pub fn meta(tier: Tier) -> Meta {
     Meta {
         id: "C16",
         level: "exploration",
-        rule: "decode: all 65 793 byte strings of length 0..=2 into each of the four protocol readers and into decompress; for each of 27 seed messages (one per union arm, small and large) every truncation, every single-byte substitution from {00,01,7f,80,ff,b-1,b+1}, every aligned 4-byte word replaced by {0,1,len-1,len,len+1,7fffffff,ffffffff}, every bit flip (seeds <= 256 B), raw and on the compressed frame; each decoded value is walked (all accessors, view conversion, hashes, Display, BlockVerifier, NonContextualTransactionVerifier, CompactBlockVerifier, BlockTransactions/UnclesVerifier) under catch_unwind. reconstruct: real Relayer::reconstruct_block on a real pool for every prefilled subset containing the cellbase (8) x pool availability subset (8) x peer-supplied subset incl. a foreign tx (16) x tampering {none, short id replaced (2 positions), proposals changed, extension changed/removed}; structure: all prefilled index sequences (len 0..3 over {0,1,2,3,4,7}) x 7 short-id lists through CompactBlockVerifier then reconstruct_block; uncles: asked index subsets of {0,1} x answer sequences (len 0..3 over {U0,U1,foreign}) through BlockUnclesVerifier then reconstruct_block. non-trivial = a mutant that decodes / a reconstruction that returns the block.",
+        rule: "decode: all 65 793 byte strings of length 0..=2 into each of the four protocol readers and into decompress; for each of 27 seed messages (one per union arm, small and large) every truncation, every single-byte substitution from {00,01,7f,80,ff,b-1,b+1}, every aligned 4-byte word replaced by {0,1,len-1,len,len+1,7fffffff,ffffffff}, every bit flip (seeds <= 256 B), raw and on the compressed frame; each decoded value is walked (all accessors, view conversion, hashes, Display, BlockVerifier, NonContextualTransactionVerifier, CompactBlockVerifier, BlockTransactions/UnclesVerifier) under catch_unwind. reconstruct: real Relayer::reconstruct_block on a real pool for every prefilled subset containing the cellbase (8) x pool availability subset (8) x peer-supplied subset incl. a foreign tx (16) x tampering {none, short id replaced (2 positions), proposals changed, extension changed/removed}; structure: all prefilled index sequences (len 0..3 over {0,1,2,3,4,7}) x 7 short-id lists through CompactBlockVerifier then reconstruct_block; uncles: asked index subsets of {0,1} x answer sequences (len 0..3 over {U0,U1,foreign}) through BlockUnclesVerifier then reconstruct_block; uncles-mixed: every list of 2..3 uncles over {two locally stored real blocks, two unknown}, the missing indexes the first reconstruction reports, every answer of length 0..2 over {the unknown ones, a foreign one}, BlockUnclesVerifier, second reconstruction. non-trivial = a mutant that decodes / a reconstruction that returns the block.",
         assumptions: &["only compact blocks accepted by CompactBlockVerifier are reconstructed (production order)", "byte strings further than one mutation from a seed or longer than 2 bytes are not enumerated"],
         bounds: json!({"seed_size_cap_quick": 700, "tier": tier.as_str()}),
     }
